@@ -38,6 +38,7 @@ FIXES = [
     ("C01", "fix: continue (x) in a while loop re-evaluates", "x in a while loop jumped back to the test of the stale condition value: the condition code never ran again (2→c{←c|←c‹→c x} did not terminate)"),
     ("C01", "fix: & (apply to register) passes the operand", "& with a dyad handed both arguments to the operand as one list: 3£ 4&+ ¥ gave [6, 8] instead of 7; &! received a spurious empty list"),
     ("C01", "fix: break and recurse inside map/filter/sort lambdas", "X inside ƛ ' µ was a no-op (2ƛX!; gave [1, 1] instead of [1, 2]) and x printed the stack, because their bodies were parsed with LambdaMap/Filter/Sort as parent"),
+    ("C08", "fix: Þ∴ and Þ∵ pair their lists", "Þ∴ / Þ∵ on lists of unequal length: ⟨0⟩ ⟨⟩ Þ∴ raised IndexError, ⟨⟩ ⟨0⟩ Þ∴ gave ⟨⟩, lazy ⟨-1|0⟩ ⟨2⟩ Þ∴ wrapped to ⟨2|2⟩"),
     ("C02", "fix: the template of ¨…", "the template of ¨… had a positional argument after a keyword argument: every program containing ¨… failed to compile"),
 ]
 
